@@ -101,7 +101,7 @@ let eval_v v inp =
     hex text ^ " " ^ enc_patches (M.x_read_git v text)
   | _ -> "?"
 
-let eval inp = eval_v M.pinned inp
+let eval inp = match words inp with ("V" | "W") :: _ -> "ok" | _ -> eval_v M.pinned inp
 
 (* ---- the property on the implementation's output ---- *)
 let only_f5 = { M.uspan_omitted_count_zero = false; M.uspan_empty_names_next_line = true }
@@ -219,12 +219,38 @@ let well_formed inp =
       List.for_all (fun c -> ignore c.M.edits; true) (dec_chunks cs)
     | "G" :: k :: rest -> List.length (triples rest) = int_of_string k && List.length rest = 3 * int_of_string k
     | ["T"; _; t] -> ignore (unhex t); true
+    | ["V"; _; l; r; t] -> ignore (unhexs l); ignore (unhexs r); ignore (unhex t); true
+    | ["W"; l; r; cs; _; _; _] -> ignore (unhexs l); ignore (unhexs r); ignore (dec_chunks cs); true
     | _ -> false)
   with _ -> false
+
+(* validation of the reference appliers themselves (thorough tier): GNU diff's output must be
+   applied correctly; whenever the strict applier accepts one of mdiff's renderings, GNU patch
+   must have produced the same file.  A failure here is a fault of ApplySpec.v, not of mdiff. *)
+let spec_v inp =
+  match words inp with
+  | ["V"; m; ls; rs; t] ->
+    let l = unhexs ls and r = unhexs rs in
+    let f = match m with "n" -> M.x_apply_normal | "u" -> M.x_apply_unified | _ -> M.x_apply_context in
+    if f l (unhex t) = Some r then None
+    else Some ("HARNESS-FAULT: reference applier (" ^ m ^ ") does not turn Left into Right with GNU diff's own output")
+  | ["W"; ls; _rs; css; pn; pu; pc] ->
+    let l = unhexs ls and cs = dec_chunks css in
+    let join ls = List.concat (List.map (fun x -> x @ [n_of_int 10]) ls) in
+    let one name applied got =
+      match applied with
+      | Some x when got = "x" || unhex got <> join x ->
+        Some ("HARNESS-FAULT: the strict " ^ name ^ " applier accepts mdiff's rendering and gives " ^ hexs x ^ " but GNU patch " ^ (if got = "x" then "rejects it" else "gives " ^ got))
+      | _ -> None in
+    (match one "normal" (M.x_apply_normal l (M.x_normal cs)) pn with Some e -> Some e | None ->
+     match one "unified" (M.x_apply_unified l (M.x_unified M.pinned None cs)) pu with Some e -> Some e | None ->
+     one "context" (M.x_apply_context l (M.x_context None cs)) pc)
+  | _ -> None
 
 let spec prop inp out =
   if prop <> "C14" || not (well_formed inp) then None else
   throttle (match words inp with
+  | ("V" | "W") :: _ -> spec_v inp
   | "D" :: _ -> spec_d inp out
   | "A" :: _ -> spec_a inp out
   | "G" :: _ -> spec_g inp out
